@@ -393,8 +393,11 @@ def compute_dynamics_with_field(
         if step == 0:
             field = initial_field
         else:
-            field = compute_field(t, dt, previous_state_list, field, state_list)
+            # Heun step from the previous time to the current one
+            field = compute_field(previous_time, dt, previous_state_list,
+                                  field, state_list)
         previous_state_list = state_list
+        previous_time = t
         if record_all:
             system_states_list.append(state_list)
             field_list.append(field)
@@ -458,7 +461,7 @@ def compute_dynamics_with_field(
 
     system_states_list.append(final_state_list)
 
-    final_field = compute_field(t, dt, previous_state_list, field,
+    final_field = compute_field(previous_time, dt, previous_state_list, field,
                                 final_state_list)
     field_list.append(final_field)
 
